@@ -34,7 +34,7 @@ prop("C09", "exploration",
      "All distinct session transcripts between small reachable states are encoded with the crate's codec and decoded under every split point, truncation and oversized length prefix, including encoding several frames into one buffer, the decoder's end-of-stream entry point on every truncation, and a differential against frame-by-frame decoding of the declared frames for every altered length prefix and payload byte; frame, entry, message, heads, ticket, capability, filter, policy decoders and the hex text form of the secret-key, public-key and id types are fed every short byte string and every single-byte corruption of valid encodings under catch_unwind, and whatever decodes is pushed through accessors, signature verification and a real replica; signed-entry, author and namespace encodings are pinned.",
      "'Arbitrary bytes' is replaced by its exhaustive small-scope counterpart; quick tier uses a 4-value subset beyond the first 48 bytes of each encoding.")
 prop("C10", "fault_enumeration",
-     "exhaustive enumeration of peer scripts (every sequence of <=3 (quick) / <=5 (thorough) steps over a menu of correct and hostile frames) against the real acceptor and the real initiator over in-memory streams, plus every placement of one local fault (close / disable sync / actor shutdown) or one stream cut inside a frame before each protocol step of real-vs-real sessions, plus the exported transport entry points over loopback QUIC under every accept answer x local fault and against scripted hostile peers",
+     "exhaustive enumeration of peer scripts (every sequence of <=4 (quick) / <=5 (thorough) steps over a menu of correct and hostile frames) against the real acceptor and the real initiator over in-memory streams, plus every placement of one local fault (close / disable sync / actor shutdown) or one stream cut inside a frame before each protocol step of real-vs-real sessions, plus the exported transport entry points over loopback QUIC under every accept answer x local fault and against scripted hostile peers",
      "BobState::run and run_alice are driven over duplex streams by a scripted peer that owns a real replica (so 'correct next frame' is always available) and deviates at every step in every way of the menu; a frame relay injects one local fault before every incoming frame on either side. Both ends must return within the deadline without panic, into_outcome() must be callable after every outcome, a declined request leaves the store unchanged, and counters mirror on success. The relay also ends a stream in the middle of every frame (the cut side must fail). Family D runs the exported connect_and_sync against handle_connection over real QUIC on loopback for every accept answer x every local fault before the session; family E faces each of them with a scripted hostile QUIC peer (connection closed before / after opening the stream, abrupt close after a correct frame, garbage frame, correct request and nothing more, unknown document / Abort).",
      "In-memory duplex transport for families A-C, loopback QUIC (two real endpoints per scenario) for D and E; deadlines only as hang detectors with a 10x re-run.")
 prop("C11", "model_checking",
